@@ -4,6 +4,7 @@ use std::io::{self, Read, Write};
 mod data;
 mod names;
 mod coll;
+mod resp;
 
 fn unhex(s: &str) -> Vec<u8> {
     let s = s.trim();
@@ -43,6 +44,8 @@ fn main() {
         "seq" => data::seq(&args[1..]),
         "typed" => data::typed(&args[1..]),
         "tag" => names::tag(&args[1..]),
+        "resp" => resp::resp(&args[1..]),
+        "typedcount" => resp::typedcount(&args[1..]),
         "frame" => coll::frame(&args[1..]),
         "response" => coll::response(&args[1..]),
         "filter" => names::filter(&args[1..]),
